@@ -39,8 +39,11 @@ def gen_metrics(rnd, n_einsums=None, force=None):
             return gen_lf_affine(rnd)
         if n_einsums in (None, 1) and rnd.random() < 0.18:
             return gen_part_metrics(rnd)
+        if rnd.random() < 0.08:
+            force = "eager2"
+    e2 = force == "eager2"    # one tensor loaded eagerly into two buffer levels
     pool = ["M", "N", "K", "J"]
-    nr = rnd.randint(2, 3)
+    nr = rnd.randint(2, 3) if not e2 else 3
     perm = rnd.sample(pool, nr)           # global rank precedence (concordant everywhere)
     n = n_einsums or rnd.choice([1, 1, 2, 2, 3, 3, 4])
     decl = {}
@@ -80,7 +83,7 @@ def gen_metrics(rnd, n_einsums=None, force=None):
                 reused = True
         for _ in range(nf):
             name = next(fresh)
-            k = rnd.randint(1, len(ranks))
+            k = rnd.randint(min(2, len(ranks)) if e2 else 1, len(ranks))
             fr = [r for r in perm if r in rnd.sample(ranks, k)]
             decl[name] = fr
             facs.append(name)
@@ -115,7 +118,7 @@ def gen_metrics(rnd, n_einsums=None, force=None):
         freq = rnd.choice([1000, 2048, 500])
         bw = rnd.choice([64, 512, 1024])
         npe = rnd.choice([1, 4, 8])
-        mid = rnd.random() < 0.35
+        mid = rnd.random() < 0.35 or e2
         nchip = rnd.choice([1, 2]) if mid else 1
         comps = {}
         sfx = "" if nconf == 1 else "_c%d" % c
@@ -128,7 +131,7 @@ def gen_metrics(rnd, n_einsums=None, force=None):
         depth = 1
         if mid:
             l2bw = rnd.choice([128, 2048])
-            l2cls = rnd.choice(["Buffet", "Cache"])
+            l2cls = rnd.choice(["Buffet", "Cache"]) if not e2 else "Buffet"
             arch_lines += [ind + "subtree:", ind + "- name: %s" % _level_name("Chip", nchip),
                            ind + "  local:", ind + "  - name: L2%s" % sfx, ind + "    class: %s" % l2cls,
                            ind + "    attributes:", ind + "      width: 64",
@@ -136,7 +139,7 @@ def gen_metrics(rnd, n_einsums=None, force=None):
             comps["L2"] = {"class": l2cls, "inst": nchip, "bandwidth": l2bw, "depth": 1}
             ind += "  "
             depth = 2
-        bufcls = rnd.choice(["Buffet", "Buffet", "Cache"])
+        bufcls = rnd.choice(["Buffet", "Buffet", "Cache"]) if not e2 else "Buffet"
         arch_lines += [ind + "subtree:", ind + "- name: %s" % _level_name("PE", npe),
                        ind + "  local:", ind + "  - name: Buf%s" % sfx, ind + "    class: %s" % bufcls,
                        ind + "    attributes:", ind + "      width: 64",
@@ -172,7 +175,7 @@ def gen_metrics(rnd, n_einsums=None, force=None):
         fmt_lines += ["  %s:" % t, "    default:", "      rank-order: [%s]" % ", ".join(rs)]
         fmt[t] = {}
         for r in rs:
-            cb = rnd.choice([0, 32, 32])
+            cb = rnd.choice([0, 32, 32]) if not e2 else 32
             pb = rnd.choice([0, 32, 64])
             fmt_lines += ["      %s:" % r, "        format: %s" % rnd.choice(["C", "U"])]
             if cb:
@@ -196,7 +199,7 @@ def gen_metrics(rnd, n_einsums=None, force=None):
         lo_i = ei["loop_order"]
         b_lines += ["  %s:" % out, "  - config: %s" % cname, "    prefix: tmp/%s" % out]
         tens = [t for t in ei["inputs"] + [out] if decl[t]]
-        bound = [t for t in tens if rnd.random() < 0.7]
+        bound = [t for t in tens if rnd.random() < (0.7 if not e2 else 0.9)]
         bare = i > 0 and rnd.random() < 0.12
         if bare:
             # nothing but the configuration is bound: no timed component at all
@@ -226,17 +229,34 @@ def gen_metrics(rnd, n_einsums=None, force=None):
         if bound:
             b_lines += ["  - component: Mem%s" % sfx, "    bindings:"] + tb("dram")
             ei["bound"]["Mem"] = True
-            if "L2" in comps and rnd.random() < 0.7:
-                b_lines += ["  - component: L2%s" % sfx, "    bindings:"] + \
-                    tb("buffet" if comps["L2"]["class"] == "Buffet" else "cache")
-                ei["bound"]["L2"] = True
+            eager, eager2 = {}, {}
             if comps["Buf"]["class"] == "Buffet":
-                eager = {}
                 for t in bound:
                     cands = [r for r in decl[t] if lo_i.index(r) >= 1 and fmt[t][r][0] > 0]
-                    if cands and rnd.random() < 0.3:
-                        r = rnd.choice(cands)
+                    if cands and rnd.random() < (0.3 if not e2 else 0.8):
+                        r = rnd.choice(cands) if not e2 else cands[-1]
                         eager[t] = (r, rnd.choice(lo_i[:lo_i.index(r)]))
+            if "L2" in comps and (rnd.random() < 0.7 or e2):
+                if comps["L2"]["class"] == "Buffet":
+                    # the same tensor loaded eagerly at two buffer levels, usually at
+                    # two different root ranks (a tile into L2, a fiber of it into Buf)
+                    for t in bound:
+                        cands = [r for r in decl[t] if lo_i.index(r) >= 1 and fmt[t][r][0] > 0]
+                        if t in eager:
+                            above = [r for r in cands
+                                     if decl[t].index(r) <= decl[t].index(eager[t][0])]
+                            if above and (rnd.random() < 0.6 or e2):
+                                r = rnd.choice(above) if not e2 else above[0]
+                                eager2[t] = (r, rnd.choice(lo_i[:lo_i.index(r)]))
+                                if r != eager[t][0]:
+                                    ei["eager_two_roots"] = True
+                        elif cands and rnd.random() < 0.15:
+                            r = rnd.choice(cands)
+                            eager2[t] = (r, rnd.choice(lo_i[:lo_i.index(r)]))
+                b_lines += ["  - component: L2%s" % sfx, "    bindings:"] + \
+                    tb("buffet" if comps["L2"]["class"] == "Buffet" else "cache", eager2)
+                ei["bound"]["L2"] = True
+            if comps["Buf"]["class"] == "Buffet":
                 b_lines += ["  - component: Buf%s" % sfx, "    bindings:"] + tb("buffet", eager)
             else:
                 b_lines += ["  - component: Buf%s" % sfx, "    bindings:"] + tb("cache")
@@ -323,6 +343,8 @@ def gen_metrics(rnd, n_einsums=None, force=None):
                 tags.append("m-three-level")
     if "style: eager" in extra:
         tags.append("m-eager")
+    if any(ei.get("eager_two_roots") for ei in einfo):
+        tags.append("m-eager-two-roots")
     spec = Spec(decl, exprs, rank_order=ro, loop_order=lo, spacetime=st, extra=extra,
                 tags=sorted(set(tags)))
     spec.arch_info = {"configs": confs, "einsums": einfo, "format": fmt}
@@ -588,6 +610,20 @@ def gen_part_metrics(rnd):
     if buf:
         b += ["  - component: Buf", "    bindings:"] + buf
     b += ["  - component: Mul0", "    bindings:", "    - op: mul"]
+    if rnd.random() < 0.5:
+        # a sequencer, bound to loop ranks and/or to ranks the mapping splits away
+        gone = [r for r in chosen] + [g for grp in groups for g in grp[1:-1] if len(grp) > 2 and False]
+        pool = list(lo) + gone
+        k = rnd.randint(1, min(3, len(pool)))
+        rs = rnd.sample(pool, k)
+        if gone and rnd.random() < 0.6 and not any(r in gone for r in rs):
+            rs[0] = rnd.choice(gone)
+        arch += ["      - name: Seq", "        class: Sequencer", "        attributes:",
+                 "          num_ranks: %d" % len(pool)]
+        b += ["  - component: Seq", "    bindings:"] + ["    - rank: %s" % r for r in rs]
+        tags.append("m-sequencer")
+        if any(r in gone for r in rs):
+            tags.append("m-sequencer-on-split-rank")
     if isect:
         kl = rnd.choice(level["K"])
         b += ["  - component: Isect", "    bindings:", "    - rank: %s" % kl]
